@@ -77,6 +77,8 @@ pub struct Kit {
 	pub blks: Vec<BlkRec>,
 	pub by_hash: HashMap<Hash, usize>,
 	next_key: u32,
+	/// the next assembled block gets its inputs as bare commitments before its roots are computed
+	pub wire_next: bool,
 }
 
 pub fn init_chain(dir: &str, genesis: Block) -> Result<Chain, Error> {
@@ -139,6 +141,7 @@ impl Kit {
 			blks: vec![],
 			by_hash: HashMap::new(),
 			next_key: 1,
+			wire_next: false,
 		};
 		// genesis coinbase output
 		let value = consensus::reward(0);
@@ -246,6 +249,19 @@ impl Kit {
 		fee_claim_delta: i64,
 		cb_key: Option<Identifier>,
 	) -> Result<Block, String> {
+		self.assemble_full(parent, diff, txs, fee_claim_delta, cb_key, false)
+	}
+	/// `plain_reward`: the reward output and its kernel carry plain features (the kernel signed
+	/// as a plain kernel of fee 0), so the block claims the subsidy with no coinbase item in it
+	pub fn assemble_full(
+		&mut self,
+		parent: usize,
+		diff: u64,
+		txs: &[Transaction],
+		fee_claim_delta: i64,
+		cb_key: Option<Identifier>,
+		plain_reward: bool,
+	) -> Result<Block, String> {
 		let prev = self.blks[parent].block.header.clone();
 		let key_id = match cb_key {
 			Some(k) => k,
@@ -255,11 +271,16 @@ impl Kit {
 		let claimed = (fees as i64 + fee_claim_delta) as u64;
 		let rw = reward::output(&self.kc, &ProofBuilder::new(&self.kc), &key_id, claimed, false)
 			.map_err(|e| format!("{:?}", e))?;
+		let rw = if plain_reward { self.plain_reward(rw, &key_id, consensus::reward(claimed))? } else { rw };
 		let cb_commit = rw.0.commitment();
 		let mut b = Block::new(&prev, txs, Difficulty::from_num(diff), rw).map_err(|e| format!("{:?}", e))?;
 		b.header.timestamp = prev.timestamp + Duration::seconds(60);
 		b.header.pow.total_difficulty = prev.total_difficulty() + Difficulty::from_num(diff);
-		self.register_out(cb_commit, consensus::reward(claimed), key_id, true);
+		self.register_out(cb_commit, consensus::reward(claimed), key_id, !plain_reward);
+		if self.wire_next {
+			self.wire_next = false;
+			b = wire_form(&b);
+		}
 		if let Err(e) = self.builder().set_txhashset_roots(&mut b) {
 			if std::env::var("VERIF_DEBUG").is_ok() {
 				eprintln!("set_txhashset_roots: {:?}", e);
@@ -277,6 +298,19 @@ impl Kit {
 	}
 
 	/// Record a block (valid or not) so it gets an id and an abstract description.
+	fn plain_reward(&self, rw: (Output, TxKernel), key_id: &Identifier, value: u64) -> Result<(Output, TxKernel), String> {
+		let (mut out, mut ker) = rw;
+		// the range proof does not cover the features, the kernel signature does
+		out.identifier.features = OutputFeatures::Plain;
+		ker.features = KernelFeatures::Plain { fee: grin_core::core::FeeFields::zero() };
+		let secp = grin_util::static_secp_instance();
+		let secp = secp.lock();
+		let pubkey = ker.excess.to_pubkey(&secp).map_err(|e| format!("{:?}", e))?;
+		let msg = ker.features.kernel_sig_msg().map_err(|e| format!("{:?}", e))?;
+		ker.excess_sig = libtx::aggsig::sign_from_key_id(&secp, &self.kc, &msg, value, key_id, None, Some(&pubkey))
+			.map_err(|e| format!("{:?}", e))?;
+		Ok((out, ker))
+	}
 	pub fn record(&mut self, b: Block, parent: usize, tags: Vec<String>, valid: bool) -> usize {
 		let id = self.blks.len();
 		self.by_hash.insert(b.hash(), id);
@@ -396,6 +430,10 @@ impl Subject {
 			Err(e) => format!("err:{}", error_class(&e)),
 		}
 	}
+	/// the block as a peer speaking the current protocol version sends it: inputs as bare commitments
+	pub fn deliver_block_wire(&self, b: &Block) -> String {
+		self.deliver_block(&wire_form(b))
+	}
 	pub fn deliver_header(&self, h: &BlockHeader) -> String {
 		match self.c().process_block_header(h, Options::SKIP_POW) {
 			Ok(_) => "ok".to_string(),
@@ -452,6 +490,14 @@ impl Subject {
 			crate::hex(&r.kernel_root.as_bytes()[..8])
 		)
 	}
+}
+
+/// inputs in the commit-only representation (protocol version 3 on the wire); same block hash
+pub fn wire_form(b: &Block) -> Block {
+	let mut w = b.clone();
+	let commits: Vec<grin_core::core::CommitWrapper> = b.inputs().into();
+	w.body.inputs = grin_core::core::Inputs::CommitOnly(commits);
+	w
 }
 
 pub fn make_tx(
